@@ -80,6 +80,20 @@ Theorem C14_fu_fragment_parses : forall h0 h1 first last c, 0 <= h0 < 128 -> 0 <
 Proof. exact fu_fragment_parses. Qed.
 Print Assumptions C14_fu_fragment_parses.
 
+(* IsPartitionHead on payloader output: true on a single NAL unit packet, on an aggregation packet
+   and on the fragmentation unit that carries the S bit; false on every later fragment *)
+From RTP Require Import Base.Own Proofs.C10_H264 Proofs.C14_Agg Proofs.PartitionHead.
+Theorem C14_partition_head_fu : forall h0 h1 ty first fs cs, 0 <= h0 < 128 -> 0 <= h1 < 256 -> 0 <= ty < 64 ->
+  h5fu_rel (fu_b0 h0) h1 ty first fs cs ->
+  map (fun f => h265_is_partition_head (Some (own_bytes f))) fs = first :: repeat false (length fs - 1).
+Proof. exact h5fu_heads. Qed.
+Print Assumptions C14_partition_head_fu.
+
+Theorem C14_partition_head_single : forall n, valid_nal5 n -> h265_is_partition_head (Some n) = true.
+Proof. exact h265_single_head. Qed.
+Print Assumptions C14_partition_head_single.
+
+
 (* ---- single NAL unit packets and aggregation packets (AddDONL off) ---- *)
 From RTP Require Import Proofs.C14_Agg.
 
